@@ -378,7 +378,9 @@ func c04Type5Request(p *Prog, r *Report, R1 string) {
 			r.Fail(R1, name+": decoder reads", p.Pos(rp.Ret.Pos()), strings.Join(probs, "; ")+" [reads: "+readSeqString(items)+"]")
 		} else {
 			r.OK(R1, name+": decoder reads", p.Pos(rp.Ret.Pos()), "u16 tag 5; u8 key id; varint l from the remaining bytes; l bytes; l%32==0; 32-byte elements")
-			r.OK("C04.type-tags", name+": tag 5 required (verified with the read sequence)", "-", "see "+R1)
+			if _, ok := r.Rules["C04.type-tags"]; ok {
+				r.OK("C04.type-tags", name+": tag 5 required (verified with the read sequence)", "-", "see "+R1)
+			}
 		}
 	}
 	if n == 0 {
